@@ -751,6 +751,323 @@ fn trees(rng: &mut Rng, n: usize) {
 }
 
 // ---------------------------------------------------------------------------------------------
+// (c) implementation-level oracle for "consistently renaming declared names to fresh names never
+// changes the compiled output": old-format ECL programs that compile, 3 random injective renamings
+// of every declared name each (consts, functions, parameters, locals), compiled with the CLI.
+
+#[derive(Clone, Copy, PartialEq)]
+enum K2 { Local, Param, Const }
+
+struct G2<'a> { rng: &'a mut Rng, hist: &'a mut BTreeMap<&'static str, u64>, frames: Vec<Vec<(String, K2)>>, barrier_at: Vec<usize>, subs: Vec<(String, usize)>, live: usize }
+
+impl<'a> G2<'a> {
+    fn bump(&mut self, k: &'static str) { *self.hist.entry(k).or_insert(0) += 1; }
+    fn pool(&mut self) -> String { POOL[self.rng.below(4) as usize].to_string() }
+    /// what a spelling denotes here (innermost first; locals/params below a barrier are unusable)
+    fn lookup(&self, name: &str) -> Option<K2> {
+        let lowest_usable = self.barrier_at.last().copied().unwrap_or(0);
+        for (depth, f) in self.frames.iter().enumerate().rev() {
+            if let Some((_, k)) = f.iter().rev().find(|(n, _)| n == name) {
+                if *k != K2::Const && depth < lowest_usable { return None; }
+                return Some(*k);
+            }
+        }
+        None
+    }
+    fn visible(&self, want_const_only: bool, want_assignable: bool) -> Vec<String> {
+        POOL.iter().filter(|n| match self.lookup(n) {
+            Some(K2::Const) => !want_assignable,
+            Some(_) => !want_const_only,
+            None => false,
+        }).map(|n| n.to_string()).collect()
+    }
+    fn expr(&mut self, depth: u32, const_only: bool) -> String {
+        let vis = self.visible(const_only, false);
+        self.expr_from(depth, &vis)
+    }
+    fn expr_from(&mut self, depth: u32, vis: &[String]) -> String {
+        if depth == 0 || self.rng.chance(1, 2) {
+            if !vis.is_empty() && self.rng.chance(3, 4) { self.bump("c_use"); return self.rng.pick(vis).clone(); }
+            return format!("{}", 1 + self.rng.below(9));
+        }
+        let op = *self.rng.pick(&["+", "-", "*"]);
+        format!("({} {} {})", self.expr_from(depth - 1, vis), op, self.expr_from(depth - 1, vis))
+    }
+    fn fresh(&mut self, taken: &[String]) -> Option<String> {
+        for _ in 0..8 { let n = self.pool(); if !taken.contains(&n) { return Some(n); } }
+        None
+    }
+    fn block(&mut self, depth: u32, ind: &str, s: &mut String) {
+        let inner = format!("{}    ", ind);
+        // const items of this block are visible everywhere in it: decide them first
+        let nconst = if self.rng.chance(1, 3) { 1 + self.rng.below(2) as usize } else { 0 };
+        let mut consts: Vec<String> = vec![];
+        for _ in 0..nconst { if let Some(n) = self.fresh(&consts) { consts.push(n); } }
+        self.frames.push(consts.iter().map(|n| (n.clone(), K2::Const)).collect());
+        let mut const_positions: Vec<usize> = consts.iter().map(|_| self.rng.below(5) as usize).collect();
+        const_positions.sort();
+        let n = 2 + self.rng.below(4) as usize;
+        let live0 = self.live;
+        let mut ci = 0;
+        for pos in 0..=n {
+            while ci < consts.len() && (const_positions[ci] <= pos || pos == n) {
+                self.bump("c_nested_const");
+                // the initialiser sees consts only (locals are behind the barrier)
+                // (only consts of outer blocks and later consts of this block: no cycles)
+                self.barrier_at.push(self.frames.len());
+                let cand: Vec<String> = self.visible(true, false).into_iter()
+                    .filter(|n| match consts.iter().position(|c| c == n) { Some(k) => k > ci, None => true }).collect();
+                if cand.iter().any(|n| consts.contains(n)) { self.bump("c_nested_forward_ref"); }
+                let e = self.expr_from(1, &cand);
+                self.barrier_at.pop();
+                writeln!(s, "{}const int {} = {};", inner, consts[ci], e).unwrap();
+                ci += 1;
+            }
+            if pos == n { break; }
+            match self.rng.below(10) {
+                0..=2 if self.live < 3 => {
+                    let taken: Vec<String> = self.frames.last().unwrap().iter().filter(|(_, k)| *k != K2::Const).map(|(n, _)| n.clone()).collect();
+                    if let Some(nm) = self.fresh(&taken) {
+                        self.bump("c_local");
+                        if self.lookup(&nm).is_some() { self.bump("c_shadowing_decl"); }
+                        let e = self.expr(2, false);
+                        writeln!(s, "{}int {} = {};", inner, nm, e).unwrap();
+                        self.frames.last_mut().unwrap().push((nm, K2::Local));
+                        self.live += 1;
+                    }
+                },
+                3..=4 => {
+                    let asg = self.visible(false, true);
+                    if !asg.is_empty() { self.bump("c_assign"); let v = self.rng.pick(&asg).clone(); let e = self.expr(2, false); writeln!(s, "{}{} = {};", inner, v, e).unwrap(); }
+                },
+                5..=6 => { self.bump("c_ins"); let a = self.expr(1, false); let b = self.expr(1, false); writeln!(s, "{}ins_10({}, {});", inner, a, b).unwrap(); },
+                7 if depth > 0 => {
+                    self.bump("c_if"); let c = self.expr(1, false);
+                    writeln!(s, "{}if ({} > 2) {{", inner, c).unwrap(); self.block(depth - 1, &inner, s);
+                    if self.rng.chance(1, 2) { writeln!(s, "{}}} else {{", inner).unwrap(); self.block(depth - 1, &inner, s); }
+                    writeln!(s, "{}}}", inner).unwrap();
+                },
+                8 if depth > 0 => { self.bump("c_block"); writeln!(s, "{}{{", inner).unwrap(); self.block(depth - 1, &inner, s); writeln!(s, "{}}}", inner).unwrap(); },
+                _ => {
+                    if !self.subs.is_empty() && self.rng.chance(1, 2) {
+                        self.bump("c_call_sub");
+                        let (f, n) = self.rng.pick(&self.subs.clone()).clone();
+                        let args: Vec<String> = (0..n).map(|_| self.expr(1, false)).collect();
+                        writeln!(s, "{}{}({});", inner, f, args.join(", ")).unwrap();
+                    } else { self.bump("c_ins"); let a = self.expr(1, false); writeln!(s, "{}ins_10({}, 0);", inner, a).unwrap(); }
+                },
+            }
+        }
+        self.frames.pop();
+        self.live = live0;
+    }
+    fn file(&mut self) -> String {
+        let mut s = String::new();
+        let nconst = self.rng.below(4) as usize;
+        let mut consts: Vec<String> = vec![];
+        for _ in 0..nconst { if let Some(n) = self.fresh(&consts) { consts.push(n); } }
+        let nsub = 1 + self.rng.below(3) as usize;
+        let mut subs: Vec<(String, usize)> = vec![];
+        for _ in 0..nsub { let taken: Vec<String> = subs.iter().map(|x| x.0.clone()).collect(); if let Some(n) = self.fresh(&taken) { subs.push((n, self.rng.below(3) as usize)); } }
+        self.subs = subs.clone();
+        self.frames.push(consts.iter().map(|n| (n.clone(), K2::Const)).collect());
+        // file-level consts may refer to later ones (forward references), never in a cycle
+        let mut items: Vec<String> = vec![];
+        for (k, c) in consts.iter().enumerate() {
+            self.bump("c_file_const");
+            let later: Vec<String> = consts[k + 1..].to_vec();
+            let e = if !later.is_empty() && self.rng.chance(2, 3) { self.bump("c_forward_ref"); format!("({} + {})", self.rng.pick(&later), 1 + self.rng.below(9)) } else { format!("{}", 1 + self.rng.below(9)) };
+            items.push(format!("const int {} = {};\n", c, e));
+        }
+        for (f, np) in subs.iter() {
+            self.bump("c_sub");
+            let mut ps: Vec<String> = vec![];
+            for _ in 0..*np { if let Some(n) = self.fresh(&ps) { ps.push(n); } }
+            self.barrier_at.push(self.frames.len());
+            self.frames.push(ps.iter().map(|n| (n.clone(), K2::Param)).collect());
+            let mut body = String::new();
+            self.live = 0;
+            self.block(2, "", &mut body);
+            self.frames.pop(); self.barrier_at.pop();
+            let pl: Vec<String> = ps.iter().map(|p| format!("int {}", p)).collect();
+            items.push(format!("void {}({}) {{\n{}}}\n", f, pl.join(", "), body));
+        }
+        // shuffle the items so that consts and subs are used before their declaration
+        for i in (1..items.len()).rev() { let j = self.rng.below(i as u64 + 1) as usize; items.swap(i, j); }
+        for it in items { s.push_str(&it); }
+        let cv = self.visible(true, false);
+        let arg = if cv.is_empty() { "1".to_string() } else { self.rng.pick(&cv).clone() };
+        writeln!(s, "script s0 {{\n    ins_11({});\n}}", arg).unwrap();
+        self.frames.pop();
+        s
+    }
+}
+
+struct RenameIdents<'a, 'c> { ctx: &'a truth::CompilerContext<'c>, names: &'a HashMap<DefId, String> }
+impl ast::VisitMut for RenameIdents<'_, '_> {
+    fn visit_res_ident(&mut self, i: &mut truth::ident::ResIdent) {
+        if let Some(d) = self.ctx.resolutions.try_get_def(i) {
+            if let Some(n) = self.names.get(&d) { *i.as_raw_mut() = truth::Ident::new_user(n).expect("fresh identifier"); }
+        }
+    }
+}
+
+/// the part of truth's built-in TH07 ECL map that the generated programs need (the built-in maps are not
+/// reachable through the public API; the CLI, which has them, is used on a sample of every run and must
+/// produce the same bytes)
+const TH07_SUBSET: &str = r#"!eclmap
+!ins_signatures
+0
+1
+2 to
+3 toS
+4 SS
+10 SS
+12 SSS
+13 SSS
+14 SSS
+15 SSS
+16 SSS
+17 S
+18 S
+28 SSto
+30 SSto
+32 SSto
+34 SSto
+36 SSto
+38 SSto
+41 E(imm)
+42
+!ins_intrinsics
+2 Jmp()
+3 CountJmp(op=">")
+4 AssignOp(op="="; type="int")
+12 BinOp(op="+"; type="int")
+13 BinOp(op="-"; type="int")
+14 BinOp(op="*"; type="int")
+15 BinOp(op="/"; type="int")
+16 BinOp(op="%"; type="int")
+28 CondJmp(op="=="; type="int")
+30 CondJmp(op="!="; type="int")
+32 CondJmp(op="<"; type="int")
+34 CondJmp(op="<="; type="int")
+36 CondJmp(op=">"; type="int")
+38 CondJmp(op=">="; type="int")
+41 CallReg()
+!timeline_ins_signatures
+11 s(arg0)
+!gvar_types
+10000 $
+10001 $
+10002 $
+10003 $
+10004 %
+10005 %
+10006 %
+10007 %
+10029 $
+10030 $
+10031 $
+10032 $
+"#;
+
+fn inproc_compile(text: &str, out: &std::path::Path) -> (bool, Vec<u8>) {
+    let _ = std::fs::remove_file(out);
+    let r = catch(|| -> Result<(), truth::ErrorReported> {
+        let mut scope = truth::Builder::new().capture_diagnostics(true).build();
+        let mut truth = scope.truth();
+        truth.apply_mapfile_str(TH07_SUBSET, Game::Th07)?;
+        let file = truth.parse::<ast::ScriptFile>("<input>", text.as_bytes())?.value;
+        let mut t = truth.validate_defs()?;
+        let ecl = t.compile_ecl(Game::Th07, &file)?;
+        t.write_ecl(Game::Th07, out, &ecl)
+    });
+    match r {
+        Ok(Ok(())) => (true, std::fs::read(out).unwrap_or_default()),
+        Ok(Err(e)) => { e.ignore(); (false, vec![]) },
+        Err(p) => (false, format!("panic: {}", p).into_bytes()),
+    }
+}
+
+fn cli_compile(src: &std::path::Path, out: &std::path::Path) -> (bool, Vec<u8>) {
+    let exe = std::env::current_exe().unwrap().parent().unwrap().join("truth-cli");
+    let _ = std::fs::remove_file(out);
+    let st = std::process::Command::new(exe).args(["truecl", "compile", "-g", "7"]).arg(src).arg("-o").arg(out)
+        .env("RUST_BACKTRACE", "0").stdout(std::process::Stdio::null()).stderr(std::process::Stdio::null()).status();
+    let ok = st.map(|s| s.success()).unwrap_or(false);
+    (ok, if ok { std::fs::read(out).unwrap_or_default() } else { vec![] })
+}
+
+/// parse + resolve in-process; returns the AST, and the DefId of every declaration with its spelling
+fn rename_program(text: &str, rng: &mut Rng, nren: usize) -> Result<(String, Vec<String>, usize), String> {
+    let mut scope = truth::Builder::new().capture_diagnostics(true).build();
+    let mut truth = scope.truth();
+    let mut file = truth.parse::<ast::ScriptFile>("<input>", text.as_bytes()).map_err(|_| "parse".to_string())?.value;
+    let opts = passes::resolution::AssignLanguagesOptions { funcs: LanguageKey::Ecl, scripts: LanguageKey::Timeline };
+    { let ctx = truth.ctx(); opts.run(&mut file, ctx).map_err(|_| "assign_languages".to_string())?; }
+    let ok = catch(|| { let ctx = truth.ctx(); passes::resolution::resolve_names(&file, ctx).is_ok() }).map_err(|p| format!("panic: {}", p))?;
+    if !ok { return Err("resolve".into()); }
+    let mut names = Names::new();
+    let mut tr = Tr { names: &mut names, occs: vec![], unsupported: None };
+    for i in &file.items { tr.item(&i.value); }
+    let occs = std::mem::take(&mut tr.occs);
+    let ctx = truth.ctx();
+    let mut decls: Vec<DefId> = vec![];
+    for o in &occs { if o.decl { if let Some(d) = ctx.resolutions.try_get_def(&o.ident) { if !decls.contains(&d) { decls.push(d); } } } }
+    let base = truth::fmt::stringify(&file);
+    let mut outs = vec![];
+    for _ in 0..nren {
+        // injective: a random permutation of distinct fresh spellings
+        let mut fresh: Vec<String> = (0..decls.len()).map(|k| format!("{}{}", *rng.pick(&["zq", "Wx", "v_", "renamed"]), 100 + k)).collect();
+        for i in (1..fresh.len()).rev() { let j = rng.below(i as u64 + 1) as usize; fresh.swap(i, j); }
+        let map: HashMap<DefId, String> = decls.iter().cloned().zip(fresh).collect();
+        let mut f2 = file.clone();
+        ast::VisitMut::visit_file(&mut RenameIdents { ctx, names: &map }, &mut f2);
+        outs.push(truth::fmt::stringify(&f2));
+    }
+    Ok((base, outs, decls.len()))
+}
+
+fn rename_oracle(rng: &mut Rng, n: usize, texts: Vec<String>) {
+    let dir = work_dir("c10");
+    let mut hist = BTreeMap::new();
+    let (mut compiled, mut rejected, mut unresolved, mut compared, mut decls_total) = (0u64, 0u64, 0u64, 0u64, 0u64);
+    let (mut cli_runs, mut subset_differs) = (0u64, 0u64);
+    let fixed = texts.len();
+    for k in 0..(n + fixed) {
+        let mut r = rng.fork();
+        let text = if k < fixed { texts[k].clone() } else { let mut g = G2 { rng: &mut r, hist: &mut hist, frames: vec![], barrier_at: vec![], subs: vec![], live: 0 }; g.file() };
+        let (base, rens, nd) = match rename_program(&text, &mut r, 3) {
+            Ok(x) => x,
+            Err(why) => { if why.starts_with("panic") { println!("ORACLE-FAIL\tpanic while resolving: {}\t{}", why, one_line(&text)); } unresolved += 1; continue; },
+        };
+        let src = dir.join("ren_base.ecl"); let out = dir.join("ren_base.out");
+        std::fs::write(&src, &base).unwrap();
+        let use_cli = k < fixed || k % 25 == 0;   // the CLI (slow to start in a debug build) on a sample, in-process otherwise
+        let (ok0, bytes0) = if use_cli { cli_compile(&src, &out) } else { inproc_compile(&base, &out) };
+        if bytes0.starts_with(b"panic: ") { println!("ORACLE-FAIL\tpanic while compiling: {}\t{}", String::from_utf8_lossy(&bytes0), one_line(&base)); }
+        if use_cli {
+            cli_runs += 1;
+            let (ok_i, bytes_i) = inproc_compile(&base, &dir.join("ren_base_i.out"));
+            if ok_i != ok0 || bytes_i != bytes0 { println!("NOTE\tin-process compile (TH07 subset map) differs from the CLI: {} vs {}\t{}", ok_i, ok0, one_line(&base)); subset_differs += 1; }
+        }
+        if !ok0 { rejected += 1; } else { compiled += 1; decls_total += nd as u64; }
+        for (j, t) in rens.iter().enumerate() {
+            let src = dir.join(format!("ren_{}.ecl", j)); let out = dir.join(format!("ren_{}.out", j));
+            std::fs::write(&src, t).unwrap();
+            let (ok1, bytes1) = if use_cli { cli_compile(&src, &out) } else { inproc_compile(t, &out) };
+            compared += 1;
+            if ok1 != ok0 { println!("ORACLE-FAIL\trename: renaming declared names changed acceptance ({} -> {}); renamed: {}\t{}", ok0, ok1, one_line(t), one_line(&base)); }
+            else if bytes1 != bytes0 {
+                let at = bytes0.iter().zip(&bytes1).position(|(a, b)| a != b).unwrap_or(bytes0.len().min(bytes1.len()));
+                println!("ORACLE-FAIL\trename: renaming declared names changed the compiled output (first difference at byte {}); renamed: {}\t{}", at, one_line(t), one_line(&base));
+            }
+        }
+    }
+    println!("STATS\trename_programs_compiled={}\trejected_by_compile={}\tnot_resolved={}\trenamings_compared={}\tdeclarations_renamed={}\tcompiled_with_cli={}\tsubset_map_differs_from_cli={}\thist={:?}", compiled, rejected, unresolved, compared, decls_total * 3, cli_runs, subset_differs, hist);
+}
+
+// ---------------------------------------------------------------------------------------------
 // (b) the programs of src/resolve/tests.rs
 
 fn tests_rs() {
@@ -787,13 +1104,29 @@ fn main() {
     match args.get(1).map(|s| s.as_str()) {
         Some("trees") => trees(&mut rng, args.get(2).and_then(|s| s.parse().ok()).unwrap_or(100)),
         Some("tests") => tests_rs(),
+        Some("rename") => rename_oracle(&mut rng, args.get(2).and_then(|s| s.parse().ok()).unwrap_or(50), vec![]),
+        Some("rename-text") => { let t = std::fs::read_to_string(&args[2]).expect("read"); rename_oracle(&mut rng, 0, vec![t]) },
+        Some("gen2") => { let mut hist = BTreeMap::new(); for _ in 0..args.get(2).and_then(|s| s.parse().ok()).unwrap_or(2) { let mut r = rng.fork();
+            let mut g = G2 { rng: &mut r, hist: &mut hist, frames: vec![], barrier_at: vec![], subs: vec![], live: 0 }; println!("{}\n----", g.file()); } },
         Some("text") => {
             let text = std::fs::read_to_string(&args[2]).expect("read");
             let shape = if args.get(3).map(|s| s == "block").unwrap_or(false) { Shape::Block } else { Shape::File };
-            println!("GENV\tgenv_gen\t{}", env_term(&SETUP_GEN));
-            let o = run_program(&text, shape, &SETUP_GEN, "genv_gen");
-            if o.case.is_none() { println!("NOTE\tnot a case: {}\t{}", o.note, one_line(&text)); }
-            emit("RES", &o, &text);
+            if args.get(4).map(|s| s == "tests-env").unwrap_or(false) {
+                // the environment of src/resolve/tests.rs
+                let path = format!("{}/src/resolve/tests.rs", repo_root());
+                let src = std::fs::read_to_string(&path).unwrap_or_default();
+                let eclmap = src.split("const ECLMAP: &'static str = r#\"").nth(1).and_then(|s| s.split("\"#;").next()).unwrap_or("").to_string();
+                let setup = Setup { mapfile: &eclmap, game: Game::Th12, funcs: LanguageKey::Ecl, scripts: LanguageKey::Ecl };
+                println!("GENV\tgenv_tests\t{}", env_term(&setup));
+                let o = run_program(&text, shape, &setup, "genv_tests");
+                if o.case.is_none() { println!("NOTE\tnot a case: {}\t{}", o.note, one_line(&text)); }
+                emit("RES", &o, &text);
+            } else {
+                println!("GENV\tgenv_gen\t{}", env_term(&SETUP_GEN));
+                let o = run_program(&text, shape, &SETUP_GEN, "genv_gen");
+                if o.case.is_none() { println!("NOTE\tnot a case: {}\t{}", o.note, one_line(&text)); }
+                emit("RES", &o, &text);
+            }
         },
         Some("gen") => {
             // print generated programs (debugging aid)
